@@ -12,6 +12,7 @@ ones (`mem_apply`, `reparse_mem_apply`), the invariant carried through repeated 
 -/
 namespace GqlgenVerif.Rewrite
 open GqlgenVerif.Gen.RewriteOffsets
+open GqlgenVerif.Gen.ReserveFacts
 
 def NoLeadSpace (t : Text) : Prop := ∀ c r, t = c :: r → isSpace c = false
 def NoTrailSpace (t : Text) : Prop := ∀ c r, t = r ++ [c] → isSpace c = false
@@ -692,7 +693,7 @@ theorem valid_trailer_block (rem : Text) (h : hasInfix blockEnd rem = false) :
 def reservedOf (i : Import) : Import := { i with alias := userLocal i }
 
 theorem reserve1_mono (acc : List Import) (i j : Import) (h : j ∈ acc) : j ∈ reserve1 acc i := by
-  unfold reserve1
+  unfold reserve1 reserve1With
   split
   · exact h
   · simp [h]
@@ -710,7 +711,7 @@ theorem foldl_reserve1_origin (l : List Import) : ∀ (acc : List Import) (j : I
   | cons x xs ih =>
     intro acc j h
     rcases ih _ j h with h1 | ⟨i, hi, rfl⟩
-    · unfold reserve1 at h1
+    · unfold reserve1 reserve1With at h1
       split at h1
       · exact Or.inl h1
       · rw [List.mem_append] at h1
@@ -722,7 +723,10 @@ theorem foldl_reserve1_origin (l : List Import) : ∀ (acc : List Import) (j : I
 /-- a user import whose path and name are free when its turn comes is reserved under its own name -/
 theorem reserve1_adds (acc : List Import) (i : Import)
     (hp : ∀ j ∈ acc, j.path ≠ i.path) (ha : ∀ j ∈ acc, j.alias ≠ userLocal i) : reservedOf i ∈ reserve1 acc i := by
-  unfold reserve1
+  unfold reserve1 reserve1With
+  -- the collision is looked up under the name the import will HAVE (regenerated key): closes only for `.alias`
+  have hk : collisionName collisionKey i = userLocal i := rfl
+  rw [hk]
   have h1 : (acc.any fun x => x.path == i.path) = false := by
     rw [List.any_eq_false]; intro j hj; simpa using hp j hj
   have h2 : (acc.any fun x => x.alias == userLocal i) = false := by
